@@ -182,3 +182,169 @@ fn c16_header_type_mismatch() {
     assert!(matches!(r, Err(CommandResponseError::HeaderTypeMismatch)));
     kani::cover!(which == 2);
 }
+
+// ---- request construction: nothing the user added may be lost on the way to the wire ----
+
+/// (kind 0..=9 in the order of the enum, number of objects, index of the first object)
+fn shape(h: &CommandHeader) -> (u8, usize, u16) {
+    match h {
+        CommandHeader::G12V1U8(v) => (0, v.len(), v[0].1 as u16),
+        CommandHeader::G41V1U8(v) => (1, v.len(), v[0].1 as u16),
+        CommandHeader::G41V2U8(v) => (2, v.len(), v[0].1 as u16),
+        CommandHeader::G41V3U8(v) => (3, v.len(), v[0].1 as u16),
+        CommandHeader::G41V4U8(v) => (4, v.len(), v[0].1 as u16),
+        CommandHeader::G12V1U16(v) => (5, v.len(), v[0].1),
+        CommandHeader::G41V1U16(v) => (6, v.len(), v[0].1),
+        CommandHeader::G41V2U16(v) => (7, v.len(), v[0].1),
+        CommandHeader::G41V3U16(v) => (8, v.len(), v[0].1),
+        CommandHeader::G41V4U16(v) => (9, v.len(), v[0].1),
+    }
+}
+
+fn some_crob() -> Group12Var1 {
+    Group12Var1 { code: crate::app::control::ControlCode::from(0x03), count: kani::any(), on_time: 100, off_time: 200, status: CommandStatus::Success }
+}
+
+fn add_kind(b: &mut CommandBuilder, kind: u8, index: u8) {
+    let st = CommandStatus::Success;
+    match kind {
+        0 => b.add_u8(some_crob(), index),
+        1 => b.add_u8(Group41Var1 { value: kani::any(), status: st }, index),
+        2 => b.add_u8(Group41Var2 { value: kani::any(), status: st }, index),
+        3 => b.add_u8(Group41Var3 { value: 1.5, status: st }, index),
+        4 => b.add_u8(Group41Var4 { value: 2.5, status: st }, index),
+        5 => b.add_u16(some_crob(), index as u16),
+        6 => b.add_u16(Group41Var1 { value: kani::any(), status: st }, index as u16),
+        7 => b.add_u16(Group41Var2 { value: kani::any(), status: st }, index as u16),
+        8 => b.add_u16(Group41Var3 { value: 1.5, status: st }, index as u16),
+        _ => b.add_u16(Group41Var4 { value: 2.5, status: st }, index as u16),
+    }
+}
+
+fn builder_pair(first: u8) {
+    let second: u8 = kani::any();
+    kani::assume(second < 10);
+    let i1: u8 = kani::any();
+    let i2: u8 = kani::any();
+    let mut b = CommandBuilder::new();
+    add_kind(&mut b, first, i1);
+    add_kind(&mut b, second, i2);
+    let hs = b.build();
+    if first == second {
+        // same type and index width: one header, both objects, in the order given
+        assert!(hs.headers.len() == 1);
+        let (k, n, ix) = shape(&hs.headers[0]);
+        assert!(k == first && n == 2 && ix == i1 as u16);
+    } else {
+        // a different type or index width starts a new header; the pending one is kept
+        assert!(hs.headers.len() == 2);
+        let (k0, n0, ix0) = shape(&hs.headers[0]);
+        let (k1, n1, ix1) = shape(&hs.headers[1]);
+        assert!(k0 == first && n0 == 1 && ix0 == i1 as u16);
+        assert!(k1 == second && n1 == 1 && ix1 == i2 as u16);
+    }
+    kani::cover!(first == second);
+    kani::cover!(first != second);
+    std::mem::forget(hs);
+}
+
+macro_rules! builder_case {
+    ($name:ident, $k:expr) => {
+        #[kani::proof]
+        #[kani::unwind(4)]
+        fn $name() {
+            builder_pair($k)
+        }
+    };
+}
+
+// @harness c16_builder_keeps_objects_after_g12v1_u8
+// @props C16
+// @tier quick
+// @timeout 900
+// @mem 8
+// @units CommandBuilder::{new, add_g12v1_u8 .. add_g41v4_u16 (all ten), finish_header, build}, CommandSupport::{add_u8, add_u16}
+// @bounds a CROB with an 8-bit index followed by a command of ANY of the ten (type x index width) kinds, arbitrary indices and values: the built request holds every object that was added, in order - one header when the kinds agree, otherwise the pending header is kept and a new one started (what is not in the request cannot be missed in the echo, so "success" would be reported for an operation that never went out)
+// @outside three or more commands; finish_header between them
+builder_case!(c16_builder_keeps_objects_after_g12v1_u8, 0);
+
+// @harness c16_builder_keeps_objects_after_g41v2_u16
+// @props C16
+// @tier quick
+// @timeout 900
+// @mem 8
+// @units as above
+// @bounds a 16-bit analog output with a 16-bit index first, then any of the ten kinds
+builder_case!(c16_builder_keeps_objects_after_g41v2_u16, 7);
+
+// @harness c16_builder_keeps_objects_after_g41v3_u8
+// @props C16
+// @tier quick
+// @timeout 900
+// @mem 8
+// @units as above
+// @bounds a single-precision analog output with an 8-bit index first, then any of the ten kinds
+builder_case!(c16_builder_keeps_objects_after_g41v3_u8, 3);
+
+// @harness c16_builder_keeps_objects_after_g41v1_u8
+// @props C16
+// @tier thorough
+// @timeout 900
+// @mem 8
+// @units as c16_builder_keeps_objects_after_g12v1_u8
+// @bounds first command of kind g41v1_u8, then any of the ten kinds
+builder_case!(c16_builder_keeps_objects_after_g41v1_u8, 1);
+
+// @harness c16_builder_keeps_objects_after_g41v2_u8
+// @props C16
+// @tier thorough
+// @timeout 900
+// @mem 8
+// @units as c16_builder_keeps_objects_after_g12v1_u8
+// @bounds first command of kind g41v2_u8, then any of the ten kinds
+builder_case!(c16_builder_keeps_objects_after_g41v2_u8, 2);
+
+// @harness c16_builder_keeps_objects_after_g41v4_u8
+// @props C16
+// @tier thorough
+// @timeout 900
+// @mem 8
+// @units as c16_builder_keeps_objects_after_g12v1_u8
+// @bounds first command of kind g41v4_u8, then any of the ten kinds
+builder_case!(c16_builder_keeps_objects_after_g41v4_u8, 4);
+
+// @harness c16_builder_keeps_objects_after_g12v1_u16
+// @props C16
+// @tier thorough
+// @timeout 900
+// @mem 8
+// @units as c16_builder_keeps_objects_after_g12v1_u8
+// @bounds first command of kind g12v1_u16, then any of the ten kinds
+builder_case!(c16_builder_keeps_objects_after_g12v1_u16, 5);
+
+// @harness c16_builder_keeps_objects_after_g41v1_u16
+// @props C16
+// @tier thorough
+// @timeout 900
+// @mem 8
+// @units as c16_builder_keeps_objects_after_g12v1_u8
+// @bounds first command of kind g41v1_u16, then any of the ten kinds
+builder_case!(c16_builder_keeps_objects_after_g41v1_u16, 6);
+
+// @harness c16_builder_keeps_objects_after_g41v3_u16
+// @props C16
+// @tier thorough
+// @timeout 900
+// @mem 8
+// @units as c16_builder_keeps_objects_after_g12v1_u8
+// @bounds first command of kind g41v3_u16, then any of the ten kinds
+builder_case!(c16_builder_keeps_objects_after_g41v3_u16, 8);
+
+// @harness c16_builder_keeps_objects_after_g41v4_u16
+// @props C16
+// @tier thorough
+// @timeout 900
+// @mem 8
+// @units as c16_builder_keeps_objects_after_g12v1_u8
+// @bounds first command of kind g41v4_u16, then any of the ten kinds
+builder_case!(c16_builder_keeps_objects_after_g41v4_u16, 9);
